@@ -151,6 +151,23 @@ def delta(before: dict, after: dict, root: Path) -> list[dict]:
     return out
 
 
+def thin(items: list[dict]) -> list[dict]:
+    """Keep every record about a path class that is not plainly allowed; for inOut / inCore keep a few examples per
+    (kind/op, class, stage) - the judge only needs one of each."""
+    out, seen = [], {}
+    for e in items:
+        if e.get("k") == "stage":
+            out.append(e)
+            continue
+        if e.get("cls") in ("inOut", "inCore"):
+            key = (e.get("op") or e.get("kind"), e["cls"], e.get("stage"))
+            seen[key] = seen.get(key, 0) + 1
+            if seen[key] > 3:
+                continue
+        out.append(e)
+    return out[:2000]
+
+
 def install_stage_wrappers(fault: str):
     """Wrap the stage entry points in client_generator's namespace so that audit events are attributed to stages
     (and so that 'load' / 'parse' / 'postprocess' / 'diff' faults can be injected where no file is written)."""
@@ -318,12 +335,12 @@ def run_job(job: dict) -> dict:
     (root / "sentinel.txt").write_text("root sentinel\n")
     (root / "neighbour").mkdir()
     (root / "neighbour" / "__init__.py").write_text("# neighbour\n")
-    (root / "neighbour" / "data.py").write_text("X = 1\n")
+    (root / "neighbour" / "data.py").write_text("import json\nX = [1,\n  2]\n")
     parts = pkg.split(".")
     for i in range(1, len(parts)):
         d = root.joinpath(*parts[:i])
         d.mkdir(exist_ok=True)
-        (d / "sentinel_mod.py").write_text("Y = 2\n")
+        (d / "sentinel_mod.py").write_text("import os, sys\nY = {  'a':1 }\n")  # deliberately not ruff-clean: any tool run over it changes it
     STATE.update({"root": str(root), "out": str(out), "core": str(cored), "on": False, "fault": "none", "fired": False})
     prev_cwd = os.getcwd()
     os.chdir(str(root if job.get("cwd") == "root" else elsewhere))
@@ -331,16 +348,49 @@ def run_job(job: dict) -> dict:
     try:
         existing = job.get("existing", "absent")
         if existing != "absent":
-            r0, e0 = gen(spec_path, root, pkg, corep, True, bool(job.get("pp")))
+            setup_spec = spec_path
+            if existing == "specchange" and job.get("spec_old"):
+                setup_spec = base / "spec_old.json"
+                setup_spec.write_text(json.dumps(job["spec_old"]))
+            r0, e0 = gen(setup_spec, root, pkg, corep, True, bool(job.get("pp")))
             if r0 != "ok":
                 return {"id": job["id"], "setup_failed": e0}
             # remove caches the setup run may have left so that the judged run starts from a clean, known tree
             for c in list(root.rglob(".ruff_cache")):
                 shutil.rmtree(c, ignore_errors=True)
             pys = sorted(p for p in out.rglob("*.py") if "core" not in p.relative_to(out).parts)
+            def by_class(cls: str):
+                """one emitted file of the given file class (relative to the output package)"""
+                pick = {
+                    "root_init": lambda: out / "__init__.py",
+                    "client": lambda: out / "client.py",
+                    "models_init": lambda: out / "models" / "__init__.py",
+                    "model": lambda: sorted(p for p in (out / "models").glob("*.py") if p.name != "__init__.py")[0],
+                    "endpoints_init": lambda: out / "endpoints" / "__init__.py",
+                    "endpoint": lambda: sorted(p for p in (out / "endpoints").glob("*.py") if p.name != "__init__.py")[0],
+                    "mocks_init": lambda: out / "mocks" / "__init__.py",
+                    "mock_client": lambda: out / "mocks" / "mock_client.py",
+                    "mock_endpoint": lambda: sorted(p for p in (out / "mocks" / "endpoints").glob("mock_*.py"))[0],
+                    "core_runtime": lambda: cored / "http_transport.py",
+                    "core_aliases": lambda: cored / "exception_aliases.py",
+                    "core_init": lambda: cored / "__init__.py",
+                }
+                return pick[cls]()
+
             if existing == "different":
                 t = [p for p in pys if p.name == "client.py"][0]
                 t.write_text(t.read_text() + "\n# locally edited\n")
+            elif existing.startswith("edit:"):
+                t = by_class(existing.split(":", 1)[1])
+                t.write_text(t.read_text() + "\n# locally edited\n")
+            elif existing.startswith("missing:"):
+                by_class(existing.split(":", 1)[1]).unlink()
+            elif existing == "userfile":
+                # an up-to-date tree that also holds a hand-written module and lacks nothing
+                (out / "custom_helpers.py").write_text("HELPER = 1\n")
+            elif existing == "specchange":
+                # the tree was generated from an older version of the document (without one unreferenced schema)
+                pass
             elif existing == "partial":
                 for p in pys:
                     if p.parent.name == "models" and p.name != "__init__.py":
@@ -367,7 +417,7 @@ def run_job(job: dict) -> dict:
             uninstall(cg, saved)
         after = snapshot(root)
         ev = [e for e in STATE["events"]]
-        res.update({"result": result, "err": err, "fault_fired": STATE["fired"], "events": ev[:400], "nevents": len(ev), "delta": delta(before, after, root)[:200], "tree": hashlib.sha256(json.dumps({k: v[:3] for k, v in after.items() if "__pycache__" not in k}, sort_keys=True).encode()).hexdigest()})
+        res.update({"result": result, "err": err, "fault_fired": STATE["fired"], "events": thin(ev), "nevents": len(ev), "delta": thin(delta(before, after, root)), "tree": hashlib.sha256(json.dumps({k: v[:3] for k, v in after.items() if "__pycache__" not in k}, sort_keys=True).encode()).hexdigest()})
     finally:
         os.chdir(prev_cwd)
         shutil.rmtree(base, ignore_errors=True)
